@@ -39,25 +39,26 @@ section refine
 variable {α X L : Type} [LT α] [DecidableLT α]
 
 /-- ★ the store model computes what the value model computes: for ANY history of calls into an
-accumulator that starts empty, whose arguments are objects that existed before (`InRange`) and whose
-abscissae are always given or never given (`b`), the calls can be read back from the ORIGINAL store
-as `(max, min)` triples `ms`, and what the accumulator holds in the end is `run2 ms` — the running
-extreme of `Props/C16.lean` (`ext_is_fold_max`, `envelope_of_parts`, … therefore speak about the
-implementation's objects, not only about values). -/
-theorem heap_run_is_run2 (nanX nox : X) (b : Bool) (h h' : Heap α X L)
+accumulator that starts empty, whose arguments are objects that existed before (`InRange`) — with
+abscissae given by all, some or none of the calls; a call without `ext_x` is read as handing in the
+NaN abscissa `nanX` —, the calls can be read back from the ORIGINAL store as `(max, min)` triples `ms`,
+and what the accumulator holds in the end is `run2 ms` — the running extreme of `Props/C16.lean`
+(`ext_is_fold_max`, `envelope_of_parts`, … therefore speak about the implementation's objects, not only
+about values; since fix 19ddbb5 also when only some of the calls carry abscissae). -/
+theorem heap_run_is_run2 (nanX : X) (h h' : Heap α X L)
     (hist : List (MmRef × LabArg L × Option (LabArg L))) (cur' : Option CatRef)
-    (hr : ∀ e ∈ hist, InRange h.size e ∧ e.1.extx.isSome = b)
+    (hr : ∀ e ∈ hist, InRange h.size e)
     (hs : run true nanX h none hist = some (h', cur')) :
-    ∃ ms, hist.mapM (readCall h nox) = some ms ∧
-      cur'.bind (fun c => readCat h' c nox) = run2 ms := by
-  obtain ⟨ms, hms, ha⟩ := run_spec h.size nanX nox b h hist h h' none cur' none
+    ∃ ms, hist.mapM (readCall h nanX) = some ms ∧
+      cur'.bind (fun c => readCat h' c nanX) = run2 ms := by
+  obtain ⟨ms, hms, ha⟩ := run_spec h.size nanX h hist h h' none cur' none
     (Keeps.refl _ h ⟨Nat.le_refl _, Nat.le_refl _, Nat.le_refl _⟩) (Or.inl ⟨rfl, rfl⟩) hr hs
   refine ⟨ms, hms, ?_⟩
-  rcases ha with ⟨h0, h1⟩ | ⟨c, r, h0, h1, hh, -, -, -⟩
+  rcases ha with ⟨h0, h1⟩ | ⟨c, r, h0, h1, hh, -, -⟩
   · rw [h0, run2, h1]
     rfl
   · rw [h0, run2, h1]
-    exact readCat_of_holds h' c r nox hh
+    exact readCat_of_holds h' c r nanX hh
 
 end refine
 
@@ -86,6 +87,19 @@ example :
     ((run true (-1) h none hist).bind fun r => r.2.bind fun c => readCat r.1 c 0)
       = run2 [(⟨some 1, 0, "A"⟩, ⟨some 0, 1, "A"⟩), (⟨some 5, 2, "l1"⟩, ⟨none, 3, "l2"⟩),
               (⟨some 5, 4, "C"⟩, ⟨some (-2), 5, "c"⟩)] := by
+  decide
+
+/-- a history in which only the SECOND call carries abscissae: the maximum stays the first call's (NaN
+abscissa `-1`), the minimum is the second call's with its abscissa — what `run2` gives on the triples
+read with `nanX = -1` -/
+example :
+    let h : Heap Int Int String := ⟨[(some 9, some 0), (some 5, some (-2))], [(4, 5)], []⟩
+    let hist : List (MmRef × LabArg String × Option (LabArg String)) :=
+      [(⟨0, none⟩, .str "A", none), (⟨1, some 0⟩, .str "B", none)]
+    ((run true (-1) h none hist).bind fun r => r.2.bind fun c => readCat r.1 c (-1))
+      = some ⟨⟨some 9, -1, "A"⟩, ⟨some (-2), 5, "B"⟩⟩ ∧
+    run2 [(⟨some 9, -1, "A"⟩, ⟨some 0, -1, "A"⟩), (⟨some 5, 4, "B"⟩, ⟨some (-2), 5, "B"⟩)]
+      = some (⟨⟨some 9, -1, "A"⟩, ⟨some (-2), 5, "B"⟩⟩ : Cur Int Int String) := by
   decide
 
 /-- `heap_run_is_run2`: the hypothesis on a call is inhabited (a call of the history above: label
